@@ -188,6 +188,9 @@ class Attribute:
             if not isinstance(value, (list, tuple)):
                 value = [value]
             return [self.converter(v) for v in value]
+
+        if isinstance(value, (list, tuple)):
+            raise TypeError(f"{self} is single-valued; got {type(value)}: {value}")
         return self.converter(value)
 
     @property
